@@ -175,6 +175,7 @@ theorem C16_command_runs_only_live (n : Net) (op : Op) (y : Nat) (b a : Node)
   have F := keepFiles_frame
   cases op with
   | enableUser y' u => exact (contra (F.toPre.enableUser n y' u (fun _ => rfl))).elim
+  | addUserBypass y' u p adm => exact (contra (F.toPre.addUserBypass n y' u p adm (fun _ _ => rfl))).elim
   | localLogin y' u p =>
     refine (contra ?_).elim
     simp only [step]; rw [opLocalLogin_fst]; exact F.toPre.localLogin n y' u p (fun _ _ => rfl)
@@ -350,6 +351,7 @@ theorem C16_remote_session_only_by_valid_login (n : Net) (op : Op) (y : Nat) (b 
   have F := remShrink_frame
   cases op with
   | enableUser y' u => exact (quiet rfl).elim
+  | addUserBypass y' u p adm => exact (quiet rfl).elim
   | localLogin y' u p => exact (quiet rfl).elim
   | localLogout y' => exact (quiet rfl).elim
   | tick => exact (quiet rfl).elim
@@ -466,6 +468,7 @@ theorem step_nextId_mono (n : Net) (op : Op) : n.nextId ≤ (step n op).1.nextId
   cases op with
   | req y c => exact exec_nextId_mono c n y
   | enableUser y u => rcases opEnableUser_cases n y u with h | h <;> simp [step, h]
+  | addUserBypass y u p adm => rcases opAddUserBypass_cases n y u p adm with h | ⟨_, _, _, h⟩ <;> simp [step, h]
   | localLogin y u p => simp only [step]; rw [opLocalLogin_fst]; exact localLogin_nextId n y u p
   | localLogout y => rcases opLocalLogout_cases n y with h | h <;> simp [step, h]
   | tick => simp only [step, tick_nextId]; exact Nat.le_refl _
@@ -540,6 +543,7 @@ theorem step_dead_stays_dead (n : Net) (op : Op) (y cid : Nat) (hd : Dead y cid 
     · intro n y' c hd
       exact dead_of_remShrink (F.rel_upd (F.rel_refl n) y' _ (fun a => F.refl y' a)) (Nat.le_refl _) hd
   | enableUser y' u => exact dead_of_remShrink (step_remShrink n _ rfl) (step_nextId_mono n _) hd
+  | addUserBypass y' u p adm => exact dead_of_remShrink (step_remShrink n _ rfl) (step_nextId_mono n _) hd
   | localLogin y' u p => exact dead_of_remShrink (step_remShrink n _ rfl) (step_nextId_mono n _) hd
   | localLogout y' => exact dead_of_remShrink (step_remShrink n _ rfl) (step_nextId_mono n _) hd
   | tick => exact dead_of_remShrink (step_remShrink n _ rfl) (step_nextId_mono n _) hd
@@ -629,6 +633,7 @@ theorem C16_local_session_only_by_valid_login (n : Net) (op : Op) (y : Nat) (b a
   have F := locShrink_frame
   cases op with
   | enableUser y' u => exact (contra (F.toPre.enableUser n y' u (fun _ => Or.inl rfl))).elim
+  | addUserBypass y' u p adm => exact (contra (F.toPre.addUserBypass n y' u p adm (fun _ _ => Or.inl rfl))).elim
   | localLogout y' => exact (contra (F.localLogout n y')).elim
   | tick => exact (contra (F.tick n)).elim
   | setBlock x' y' on => exact (contra (rel_setBlock F.refl n x' y' on)).elim
@@ -792,6 +797,7 @@ theorem C16_limit_step (n : Net) (op : Op) (h : WithinLimit n) : WithinLimit (st
   have F := limRel_frame
   cases op with
   | enableUser y' u => exact within_of_limRel (step_limRel n _ rfl) h
+  | addUserBypass y' u p adm => exact within_of_limRel (step_limRel n _ rfl) h
   | localLogin y' u p => exact within_of_limRel (step_limRel n _ rfl) h
   | localLogout y' => exact within_of_limRel (step_limRel n _ rfl) h
   | tick => exact within_of_limRel (step_limRel n _ rfl) h
@@ -1367,6 +1373,7 @@ theorem C16_fresh_ids_step (n : Net) (op : Op) (h : FreshIds n) : FreshIds (step
   have F := remShrink_frame
   cases op with
   | enableUser y' u => exact fresh_of_remShrink (step_remShrink n _ rfl) (step_nextId_mono n _) h
+  | addUserBypass y' u p adm => exact fresh_of_remShrink (step_remShrink n _ rfl) (step_nextId_mono n _) h
   | localLogin y' u p => exact fresh_of_remShrink (step_remShrink n _ rfl) (step_nextId_mono n _) h
   | localLogout y' => exact fresh_of_remShrink (step_remShrink n _ rfl) (step_nextId_mono n _) h
   | tick => exact fresh_of_remShrink (step_remShrink n _ rfl) (step_nextId_mono n _) h
@@ -1515,6 +1522,7 @@ theorem C16_fuel_suffices (n : Net) (op : Op) : (step n op).1.stuck = n.stuck :=
   cases op with
   | req y c => exact exec_not_stuck c n y
   | enableUser y u => rcases opEnableUser_cases n y u with h | h <;> simp [step, h]
+  | addUserBypass y u p adm => rcases opAddUserBypass_cases n y u p adm with h | ⟨_, _, _, h⟩ <;> simp [step, h]
   | localLogin y u p => simp only [step]; rw [opLocalLogin_fst]; exact localLogin_not_stuck n y u p
   | localLogout y => rcases opLocalLogout_cases n y with h | h <;> simp [step, h]
   | tick => exact tick_not_stuck n
